@@ -12,7 +12,10 @@ THEOREMS = ["C13_write_order", "C13_no_reuse_parametric", "C13_ring_window", "C1
             "C13_reuse_if_writer_queue_is_2_refuted", "C13_depth1_deadlock", "C13_inorder_once", "C13_sequential_equiv",
             "C13_sequential_equiv_legacy", "C13_sequential_equiv_lz4f", "C13_tpool_compress_never_full",
             "C13_waiters_homogeneous", "C13_never_full_legacy", "C13_never_full_lz4f",
-            "C13_no_deadlock", "C13_stuck_is_complete", "C13_no_deadlock_legacy", "C13_no_deadlock_lz4f"]
+            "C13_no_deadlock", "C13_stuck_is_complete", "C13_no_deadlock_legacy", "C13_no_deadlock_lz4f",
+            "C13_terminates", "C13_terminates_legacy", "C13_terminates_lz4f",
+            "C13_no_deadlock_dec", "C13_stuck_is_final_dec", "C13_terminates_dec",
+            "C13_no_deadlock_dec_legacy", "C13_no_deadlock_dec_lz4f", "C13_terminates_dec_legacy", "C13_terminates_dec_lz4f"]
 ORACLES = ["mt"]
 CORRESPONDENCE = [
     "WriteReg.arrive model == LZ4IO_checkWriteOrder (expectedRank, capacity, totalCSize, bytes written by each call, every slot of the descriptor array)",
@@ -38,9 +41,11 @@ ASSUMPTIONS = ["mutex-protected sections are atomic; code between synchronisatio
                "(so interleavings finer than the model's steps are equivalent to one of them); races on other C variables and the hardware memory model are outside the model (TSan run is the only evidence there)",
                "no spurious condition-variable wake-ups (they only re-test a predicate)",
                "pthread variant of threadpool.c (the Windows completion-port variant is not modelled); data are abstract in the pipeline model (block k = [k])",
-               "deadlock freedom (C13_no_deadlock: every reachable non-final state has an enabled pick) is PROVED for the compression pipelines, all N >= 1, chunk counts, tPool depth >= 2, wPool depth >= 1; "
-               "NOT proved: termination (C13_terminates_full_statement, a bound on schedule length) and deadlock freedom of the two decode pipelines (those are covered by the bounded exploration, "
-               "the schedule replays and the end-to-end runs only); C13_depth1_deadlock is the negative instance at depth 1",
+               "deadlock freedom (every reachable non-final state has an enabled pick) and termination (explicit bound on the length of every schedule: the initial value of "
+               "(N+4)*remaining_work + awake_threads, which decreases on every step) are PROVED in the model for the compression pipelines (all N >= 1, chunk counts, tPool depth >= 2, wPool depth >= 1) "
+               "and for the two decode pipelines (1 decoder + 1 writer, all block counts, depths >= 1, NB >= TQ+2, NB >= WQ+2 legacy / PB >= WQ+2 LZ4F; the ring hypotheses come from the invariant the proof reuses); "
+               "these are statements about the model's blocking structure (mutex sections atomic, no spurious wake-ups, fair progress of the picked thread) - on the real code they are supported by the shim/e2e runs only; "
+               "C13_depth1_deadlock is the negative instance at compression tPool depth 1",
                "decode pipelines: single frame per run in the model; concatenated frames are covered by the end-to-end runs only"]
 
 def build(tier):
